@@ -55,3 +55,8 @@ claim("C06", "reference-model monitor: lexical scoping model over generated (par
       "Seeded programs with parameter maps, let chains/shadowing and a typed expression using the bound names at every expression position are compiled by the real compiler; the emitted expression, evaluated with the same placeholder values, must equal the scoping model's value on enumerated rows; adding unused bindings or lets after the query, and bindings named like quoted/qualified/function/table/alias positions, must not change the SQL text.",
       "Trusts sqlmini, pqlref.Eval and package val; a parameter's meaning is its snippet read as one operand.",
       "DESIGN.md section 5, C06")
+
+claim("C13", "exactly-when monitor: valid twin programs must compile, the same program with one planted documented misuse (at a random slot, node and nesting) must fail; either/or contract asserted on every call including hostile inputs",
+      "Seeded valid programs and their single-plant variants (all built-in arities, $left/$right misuse, bad let values, join kinds, row counts, zero/two queries) are compiled by the real compiler in monitored workers; acceptance of a plant, rejection of a twin, or SQL together with an error (or neither) refutes the property. The either/or contract is also asserted on hostile byte strings, soups, pathological nestings and mutated programs with parameter maps.",
+      "Trusts the generator's notion of 'breaks none of the documented rules' (gen/valid.go); render property values and lets after the query are not compiled and carry no plants.",
+      "DESIGN.md section 5, C13")
